@@ -117,6 +117,7 @@ func c18paths(c *Ctx) {
 		nops := r.Intn(12)
 		added := map[string]bool{}
 		emptied := false
+		builtinGone := false // the built-in /Volumes/<name>/ rule was taken out of the regexp table
 		idxOf := func(k string) int {
 			for i, x := range prefixPool {
 				if x == k {
@@ -126,7 +127,7 @@ func c18paths(c *Ctx) {
 			return 0
 		}
 		for i := 0; i < nops; i++ {
-			opk := r.Intn(10)
+			opk := r.Intn(12) // (10 and 11: the regexp removals below)
 			if opk == 6 && !emptying {
 				// (histories that empty the plain table are put back from what the HARNESS knows about the start-up entries; to
 				// keep the library's own start-up table in place everywhere else, they run in processes of their own)
@@ -216,7 +217,20 @@ func c18paths(c *Ctx) {
 				hist = append(hist, "addrx <invalid pattern>")
 				c.R.Add("invalid_patterns_registered", 1)
 			default:
-				if len(rxs) > 0 {
+				if r.P(25) {
+					// the application takes the built-in volume rule out of the regexp table (by its pattern, or by resetting
+					// the table): with the regexp flag on, /Volumes/... paths are then paths like any other
+					if r.Bool() {
+						slog.RemoveKnownPathRegexpMapping(`/Volumes/[^/]+/`)
+						hist = append(hist, "removerx <the built-in volume rule>")
+					} else {
+						slog.ResetKnownPathRegexpMapping()
+						rxs = nil
+						hist = append(hist, "ResetKnownPathRegexpMapping()")
+					}
+					builtinGone = true
+					c.R.Add("histories_that_remove_the_built_in_volume_rule", 1)
+				} else if len(rxs) > 0 {
 					k := r.Intn(len(rxs))
 					slog.RemoveKnownPathRegexpMapping(rxs[k].expr)
 					hist = append(hist, "removerx "+rxs[k].expr)
@@ -236,9 +250,15 @@ func c18paths(c *Ctx) {
 			for _, x := range rxs {
 				slog.RemoveKnownPathRegexpMapping(x.expr)
 			}
+			if builtinGone {
+				slog.AddKnownPathRegexpMapping(`/Volumes/[^/]+/`, "~") // as the package registers it at start-up
+			}
 		}
 		defer cleanup()
 		allRx := append([]rxMap{{expr: `/Volumes/[^/]+/`, re: regexp.MustCompile(`/Volumes/[^/]+/`), repl: "~"}}, rxs...)
+		if builtinGone {
+			allRx = rxs
+		}
 		// queries
 		var keys []string
 		for k := range table {
@@ -271,7 +291,10 @@ func c18paths(c *Ctx) {
 			case 6: // regexp territory
 				p = gen.Pick(r, []string{"/mnt/vol12/src/a.go", "/net/fs/export/proj/b.go", "/Users/bob/code/c.go", "/Volumes/Work/repo/d.go", "/Volumes/", "/Volumes/x",
 					// paths that SEVERAL rules match (an anchored directory rule and one or two rules for segments further down)
-					"/mnt/vol3/web/node_modules/left-pad/i.go", "/Users/bob/releases/v1.2/x.go", "/net/fs/export/releases/v2.0/node_modules/y.go", "/mnt/vol1/releases/v3/z.go"})
+					"/mnt/vol3/web/node_modules/left-pad/i.go", "/Users/bob/releases/v1.2/x.go", "/net/fs/export/releases/v2.0/node_modules/y.go", "/mnt/vol1/releases/v3/z.go",
+					// paths that BEGIN with what a rule without an anchor matches (rules that may be registered, removed again, or
+					// switched off with the regexp flag by then)
+					"/node_modules/left-pad/index.go", "/releases/v1.2.3/cmd/x.go", "/node_modules/", "/Volumes/Work/releases/v2/node_modules/z.go"})
 			case 7: // outside everything
 				p = gen.Pick(r, []string{"/usr/lib/go/src/fmt/print.go", "/etc/hosts", "/", "/a", "/usr/../usr/lib/x.go", "/usr/lib/", "//double//slash.go"})
 			case 8: // relative and odd
